@@ -1,0 +1,84 @@
+//! Verification seams for external runtime monitors.
+//!
+//! Compiled only with the `verif-hooks` cargo feature. Nothing here changes the
+//! behaviour of the library: it exposes a pluggable in-memory link that
+//! `TransportHandle` can use instead of QUIC sockets, a crash-point callback
+//! registry that the persistence code calls at instrumented steps, and `pub`
+//! wrappers around a few crate-private wire helpers.
+
+use crate::error::P2pResult;
+use crate::network::{P2PEvent, RequestResponseEnvelope, WireMessage};
+use std::net::SocketAddr;
+use std::path::Path;
+use std::sync::{Arc, RwLock};
+
+/// In-memory replacement for the QUIC link below `TransportHandle`.
+///
+/// `from` / `to` are hex transport peer ids. `connect` returns the transport
+/// peer id of the endpoint listening at `addr`.
+#[async_trait::async_trait]
+pub trait VerifLink: Send + Sync + 'static {
+    async fn connect(&self, from: &str, addr: SocketAddr) -> P2pResult<String>;
+    async fn send(&self, from: &str, to: &str, frame: Vec<u8>) -> P2pResult<()>;
+}
+
+type CrashCallback = Arc<dyn Fn(&str, &Path) + Send + Sync>;
+
+static CRASH_CALLBACK: RwLock<Option<CrashCallback>> = RwLock::new(None);
+
+/// Install (or clear) the process-wide crash-point callback.
+pub fn set_crash_callback(cb: Option<CrashCallback>) {
+    if let Ok(mut slot) = CRASH_CALLBACK.write() {
+        *slot = cb;
+    }
+}
+
+/// Called by instrumented persistence code at a named step; `dir` is the
+/// directory (or file) whose on-disk state is of interest at that instant.
+pub fn crash_point(name: &str, dir: &Path) {
+    let cb = CRASH_CALLBACK.read().ok().and_then(|g| g.clone());
+    if let Some(cb) = cb {
+        cb(name, dir);
+    }
+}
+
+/// Encode a transport frame exactly as `TransportHandle::send_message` does.
+pub fn encode_wire_message(
+    protocol: &str,
+    data: Vec<u8>,
+    from: &str,
+    timestamp: u64,
+) -> Option<Vec<u8>> {
+    postcard::to_stdvec(&WireMessage {
+        protocol: protocol.to_string(),
+        data,
+        from: from.to_string(),
+        timestamp,
+    })
+    .ok()
+}
+
+/// Decode a transport frame into `(protocol, data, from, timestamp)`.
+pub fn decode_wire_message(bytes: &[u8]) -> Option<(String, Vec<u8>, String, u64)> {
+    let m: WireMessage = postcard::from_bytes(bytes).ok()?;
+    Some((m.protocol, m.data, m.from, m.timestamp))
+}
+
+/// The receive path's frame parser (timestamp window + source attribution).
+pub fn parse_protocol_message(bytes: &[u8], source: &str) -> Option<P2PEvent> {
+    crate::network::parse_protocol_message(bytes, source)
+}
+
+/// Encode a `/rr/` request/response envelope.
+pub fn encode_rr_envelope(
+    message_id: &str,
+    is_response: bool,
+    payload: Vec<u8>,
+) -> Option<Vec<u8>> {
+    postcard::to_allocvec(&RequestResponseEnvelope {
+        message_id: message_id.to_string(),
+        is_response,
+        payload,
+    })
+    .ok()
+}
